@@ -396,6 +396,13 @@ def systematic_corner():
                         "cor-k3-%s-free7" % cn))
         out.append(case(Fk2, cross([1, 2], [1], [K(cn, k=3, f=2, l=0), K("MinimumTrials", k=6)]), "B", [cn, "k3", "whole-factor", "long-window"],
                         "cor-k3-%s-whole6" % cn))
+    # a constraint on a Transition factor in a design of ONE trial (the factor never has a level: requests over no variables, FX27)
+    Fz = [basic("a", 2)]
+    Fz.append(derived(Fz, "tr", [1], "transition", table=eq_table(Fz, [1], 2)))
+    for cn, con in (("exk1", K("ExactlyK", k=1, f=2, l=2)), ("atmost1", K("AtMostKInARow", k=1, f=2, l=2)),
+                    ("atleast2", K("AtLeastKInARow", k=2, f=2, l=1)), ("exrow1", K("ExactlyKInARow", k=1, f=2, l=1))):
+        out.append(case(Fz, cross([1, 2], [1], [con, K("Exclude", f=1, l=1)], False), "B", ["no-applicable-trial", cn],
+                        "cor-noappl-%s" % cn))
     # MinimumTrials below the crossing size, equal to it, 1
     for m in (1, 3, 4):
         out.append(case(F, cross(full, [1, 2], [K("MinimumTrials", k=m)]), "B", ["MinimumTrials", "small"], "cor-min%d" % m))
